@@ -1061,7 +1061,7 @@ def convert_avg_pool_to_conv2d(op: Operation, arch, nng) -> Operation:
 
     op.rounding_mode = RoundingMode.AwayZero
     # Every output channel sums the window of its own input channel only
-    depth = op.ofm.shape[-1]
+    depth = op.ofm_shapes[0].depth
     shape = [h, w, depth, depth]
     weights = np.zeros(shape, dtype=np.int64)
     for channel in range(depth):
@@ -1080,7 +1080,10 @@ def convert_avg_pool_to_conv2d(op: Operation, arch, nng) -> Operation:
     op.weights.values = np.reshape(op.inputs[1].values, shape)
 
     # Set IFM/OFM shapes after changing op type
+    # (the shapes of the op can differ from those of its tensors (a bypassed reshape), keep them)
+    ifm_shape, ofm_shape = op.ifm_shapes[0], op.ofm_shapes[0]
     op.set_ifm_ofm_shapes()
+    op.ifm_shapes[0], op.ofm_shapes[0] = ifm_shape, ofm_shape
     return op
 
 
